@@ -419,15 +419,18 @@ fn main() {
     let tier = ctx.tier;
     let max_n = tier.pick(3usize, 6usize);
 
-    let nr = regress_cases().len() as u64;
+    // C14_SKIP_FIXED=1 skips the fixed list; used only when measuring the sensitivity of the generated
+    // sub-checks against mutants (a violation in the fixed list stops the run first).
+    let skip_fixed = std::env::var_os("C14_SKIP_FIXED").is_some();
+    let nr = if skip_fixed { 0 } else { regress_cases().len() as u64 };
     ctx.run_enum("regress", nr, true, check_regress, |i| {
         let (n, c, e) = regress_cases().swap_remove(i as usize);
         format!("{n}: {c:?} expect {e:?}")
     });
 
-    ctx.run_prop_with("build-sapling", move || gen::arb_case(max_n, Engine::Build), tier.pick(15_000, 400_000), 600, check_case);
-    ctx.run_prop_with("build-pczt", move || gen::arb_case(max_n, Engine::Pczt), tier.pick(15_000, 400_000), 600, check_case);
-    let prove_cases: u64 = std::env::var("C14_PROVE").ok().and_then(|s| s.parse().ok()).unwrap_or(tier.pick(0, 48));
+    ctx.run_prop_with("build-sapling", move || gen::arb_case(max_n, Engine::Build), tier.pick(5_000, 300_000), 600, check_case);
+    ctx.run_prop_with("build-pczt", move || gen::arb_case(max_n, Engine::Pczt), tier.pick(5_000, 300_000), 600, check_case);
+    let prove_cases: u64 = std::env::var("C14_PROVE").ok().and_then(|s| s.parse().ok()).unwrap_or(tier.pick(0, 64));
     if prove_cases > 0 {
         ctx.run_prop_with("build-prove", move || gen::arb_case(2, Engine::Prove), prove_cases, 24, check_case);
     }
